@@ -340,7 +340,28 @@ func (s *Sim) lockRelease(mu any, excl bool, site string) {
 // MuLock etc. are the R4 hooks. The real lock is always taken, so mutual
 // exclusion is exactly the shipped one; the model only decides *when* a
 // parked task may proceed so that the real lock never blocks a scheduled task.
+// lockWait: when set, every instrumented lock acquisition that cannot proceed
+// at once reports its site before it blocks (used to learn, without timing,
+// that a second caller is waiting for the lock the first one holds).
+var lockWait atomic.Pointer[func(site string)]
+
+// SetLockWaitHook installs (or with nil removes) the lock-wait hook.
+func SetLockWaitHook(f func(site string)) {
+	if f == nil {
+		lockWait.Store(nil)
+		return
+	}
+	lockWait.Store(&f)
+}
+
 func MuLock(m *sync.Mutex, site string) {
+	if h := lockWait.Load(); h != nil {
+		if !m.TryLock() {
+			(*h)(site)
+			m.Lock()
+		}
+		return
+	}
 	if s := cur.Load(); s != nil {
 		switch s.Mode {
 		case ModeSched:
@@ -366,6 +387,13 @@ func MuUnlock(m *sync.Mutex, site string) {
 }
 
 func RWLock(m *sync.RWMutex, site string) {
+	if h := lockWait.Load(); h != nil {
+		if !m.TryLock() {
+			(*h)(site)
+			m.Lock()
+		}
+		return
+	}
 	if s := cur.Load(); s != nil {
 		switch s.Mode {
 		case ModeSched:
@@ -391,6 +419,13 @@ func RWUnlock(m *sync.RWMutex, site string) {
 }
 
 func RWRLock(m *sync.RWMutex, site string) {
+	if h := lockWait.Load(); h != nil {
+		if !m.TryRLock() {
+			(*h)(site)
+			m.RLock()
+		}
+		return
+	}
 	if s := cur.Load(); s != nil {
 		switch s.Mode {
 		case ModeSched:
